@@ -16,18 +16,20 @@ const hp = "pkg/protocols/httpprot"
 // c07 — body limits: 413 unforwarded, oversized responses withheld.
 //
 // Mutants tried while writing (scratch worktree, each compiles):
-//   dispatch before FetchPayload                                        → R-C07-1
-//   ignore the non-413 error of FetchPayload (fall through to dispatch) → R-C07-1
-//   413 and 400 swapped                                                 → R-C07-1
-//   server-level limit first, path-level only when it is 0             → R-C07-2
-//   pool/proxy ServerMaxBodySize inverted                               → R-C07-2
-//   `0 → default` replacement dropped                                   → R-C07-3
-//   ContentLength test after the allocation                             → R-C07-3
-//   EOF→ErrUnexpectedEOF mapping dropped / `return nil` after ReadFull  → R-C07-3
-//   io.ReadAll(body) without LimitReader                                → R-C07-4
-//   probe with io.CopyN(…, 1) (EOF at exactly the limit)                → R-C07-4
-//   extra-byte test dropped                                             → R-C07-4
-//   SetOutputResponse before the fetch / error swallowed                → R-C07-5
+//
+//	dispatch before FetchPayload                                        → R-C07-1
+//	ignore the non-413 error of FetchPayload (fall through to dispatch) → R-C07-1
+//	413 and 400 swapped                                                 → R-C07-1
+//	server-level limit first, path-level only when it is 0             → R-C07-2
+//	pool/proxy ServerMaxBodySize inverted                               → R-C07-2
+//	`0 → default` replacement dropped                                   → R-C07-3
+//	ContentLength test after the allocation                             → R-C07-3
+//	EOF→ErrUnexpectedEOF mapping dropped / `return nil` after ReadFull  → R-C07-3
+//	io.ReadAll(body) without LimitReader                                → R-C07-4
+//	probe with io.CopyN(…, 1) (EOF at exactly the limit)                → R-C07-4
+//	extra-byte test dropped                                             → R-C07-4
+//	SetOutputResponse before the fetch / error swallowed                → R-C07-5
+//
 // Not caught (numeric, stated): `>`→`>=` on the declared-length test.
 func c07(c *core.Ctx) string {
 	c.Rule("R-C07-1", "fetch before dispatch: every path of serveHTTP to a handler passes req.FetchPayload with a nil error; ErrRequestEntityTooLarge ⇒ 413 response and return; any other error ⇒ 400 and return")
